@@ -412,6 +412,27 @@ func findField(s *types.Struct, name string) ([]string, types.Type, bool) {
 }
 
 func (e *Env) trField(x *EField) TV {
+	// pkg.Const: a constant of an imported package (the qualifier must not be a variable in scope)
+	if id, ok := x.X.(*EIdent); ok && e.pkg != nil {
+		shadowed := false
+		if _, bound := e.bound[id.Name]; bound {
+			shadowed = true
+		}
+		if !shadowed && e.lookup != nil {
+			if _, found := e.lookup(e, id.Name); found {
+				shadowed = true
+			}
+		}
+		if !shadowed {
+			for _, imp := range e.pkg.Imports() {
+				if imp.Name() == id.Name {
+					if c, ok := imp.Scope().Lookup(x.Name).(*types.Const); ok {
+						return TV{T: constTerm(c.Val(), c.Type()), Ty: c.Type()}
+					}
+				}
+			}
+		}
+	}
 	base := e.tr(x.X)
 	// struct-valued sub-object reached through a pointer
 	if base.LV != nil && base.LV.Kind == "field" && base.T.S == "" {
